@@ -412,16 +412,135 @@ def raw_plan(tier):
     ]
 
 
+# ----------------------------------------------------------------------------------------------
+# code -> spec: recorded executions of the real rawdb validated against spec/RawDbTrace.tla (C01, C02)
+# ----------------------------------------------------------------------------------------------
+RAWTRACE_CFG = """SPECIFICATION TraceSpec
+CONSTANTS
+  Names = {"a", "b", "c", "d", "e", "f"}
+  P = 2
+  Sizes = {1}
+  Floor = 512
+  InitLen = 0
+  MaxFile = 1000000
+  PreWrite = FALSE
+  PreN = 0
+  WKinds = {"append"}
+  Depth = 1000000
+  Dev = %s
+  Ops = {}
+  HistK = 0
+CHECK_DEADLOCK FALSE
+INVARIANT TraceRefEq
+INVARIANT TracePartition
+INVARIANT Done
+"""
+
+
+def trace_validate(trace_path, wd, devs):
+    st = "{" + ", ".join('"%s"' % x for x in sorted(devs)) + "}"
+    r = vlib.run_tlc("RawDbTrace", RAWTRACE_CFG % st, wd, 1, 3000, emit_prefixes=("MISMATCH", "FINISHED"), extra_env={"TRACE": trace_path, "JAVA_TOOL_OPTIONS": "-Xss512m"})
+    return r
+
+
+def trace_raw(prop, tier, seed):
+    """returns dict(events, runs, mismatches[...], violations[...], known[...], selftest)"""
+    known_ids = vlib.all_known_devs()
+    devs = known_ids & {"D1", "D15"}
+    nproc, runs, ops = q(tier, (3, 3, 150), (12, 10, 400))
+    wd = vlib.scratch_dir("rawtrace")
+    out = {"events": 0, "recordings": 0, "states": 0, "divergences": [], "violations": [], "known": [], "tagged_cut": 0}
+    try:
+        files = []
+        for i in range(nproc):
+            f = os.path.join(wd, f"t{i}.ndjson")
+            vlib.run_vh(["rawrecord", "--seed", str(seed * 100 + i), "--runs", str(runs), "--ops", str(ops), "--out", f])
+            files.append(f)
+        # binding self-test: one corrupted field must be rejected at that line
+        lines = open(files[0]).read().splitlines()
+        idx = next(i for i, l in enumerate(lines) if i > 5 and json.loads(l).get("alloc", {}).get("regs"))
+        ev = json.loads(lines[idx]); ev["alloc"]["regs"][0][1] += 2
+        bad = os.path.join(wd, "corrupt.ndjson")
+        open(bad, "w").write("\n".join(lines[:idx] + [json.dumps(ev)] + lines[idx + 1:idx + 3]) + "\n")
+        with cf.ThreadPoolExecutor(6) as ex:
+            fb = ex.submit(trace_validate, bad, os.path.join(wd, "wbad"), devs)
+            futs = [ex.submit(trace_validate, f, os.path.join(wd, f"w{i}"), devs) for i, f in enumerate(files)]
+            rb = fb.result()
+            res = [fu.result() for fu in futs]
+        mm = [json.loads(x) for x in rb["emitted"]["MISMATCH"]]
+        if not mm or mm[0][0] != idx + 1:
+            raise ToolError("trace binding self-test: a corrupted placement at line %d was not rejected there (%s)" % (idx + 1, mm[:1]))
+        out["selftest"] = "a recording with one placement field shifted by one page is rejected at exactly that line"
+        for f, r in zip(files, res):
+            if r["violated"]:
+                # an invariant of the specification fails on a state that explains the recording
+                inv = r["violated"]
+                which = "C01" if "TraceRefEq" in inv else "C02" if "TracePartition" in inv else None
+                if which is None:
+                    raise ToolError("trace validation failed: %s" % inv)
+                if which == prop:
+                    out["violations"].append({"property": prop, "kind": "trace-invariant", "spec": "RawDbTrace", "what": inv, "trace": open(f).read().splitlines()[:400]})
+                continue
+            fin = r["emitted"]["FINISHED"]
+            if not fin:
+                raise ToolError("trace validation did not finish: " + "\n".join(r["tail"][-8:]))
+            recs = open(f).read().splitlines()
+            out["events"] += len(recs); out["recordings"] += runs; out["states"] += r["distinct"]
+            for m in (json.loads(x) for x in r["emitted"]["MISMATCH"]):
+                line = json.loads(recs[m[0] - 1])
+                tagged = m[8]
+                start = max(j for j in range(m[0]) if json.loads(recs[j]).get("op") == "reset")
+                history = ["%s(%s)" % (e["op"], ",".join(str(e[k]) for k in ("nm", "new", "at", "sz", "to") if k in e)) for e in map(json.loads, recs[start + 1:m[0]])]
+                c01_bad, c02_bad = line.get("c01") is False, line.get("c02") != "ok"
+                broken = (prop == "C01" and c01_bad) or (prop == "C02" and c02_bad)
+                if tagged:
+                    out["tagged_cut"] += 1
+                    if broken:
+                        out["known"].append("%s recorded history of %d calls ending %s" % ("+".join(tagged), len(history), " ".join(history[-4:])))
+                elif broken:
+                    out["violations"].append({"property": prop, "kind": "trace", "spec": "RawDbTrace", "line": m[0], "what": "recorded state after %s breaks %s: c01=%s c02=%s"
+                                              % (history[-1] if history else "?", prop, line.get("c01"), line.get("c02")), "history": history[-60:],
+                                              "logged": {k: line.get(k) for k in ("alloc", "contents", "res", "error")}, "model": {"alloc": m[2], "pend": m[3], "contents": m[4], "res": m[5], "must": m[6]}})
+                else:
+                    out["divergences"].append({"line": m[0], "after": history[-3:], "logged_alloc": line.get("alloc"), "model_alloc": m[2], "logged_res": line.get("res"), "model_res": m[5], "must": m[6]})
+    finally:
+        shutil.rmtree(wd, ignore_errors=True)
+    return out
+
+
+def add_trace(res, tr, prop):
+    c = res["coverage"]
+    c["states"] += tr["states"]
+    c["traces_validated_against_impl"] += tr["recordings"]
+    c["evaluations"] += tr["events"]
+    c["code_to_spec"] = {"recordings": tr["recordings"], "events_validated": tr["events"], "divergences_from_spec_not_breaking_the_property": tr["divergences"][:5],
+                         "divergence_count": len(tr["divergences"]), "cut_after_known_deviation": tr["tagged_cut"], "binding_selftest": tr.get("selftest"),
+                         "rule": "vh rawrecord drives a real Database with seeded random histories (create / append / positional / truncating writes of 1..17 cells, truncate, rename, "
+                                 "remove, flush, region flush, compact, reopen; one cell = 2048 bytes) and records each call with the placement of every region, holes, pending holes, "
+                                 "file length and contents; TLC validates each recording against RawDbTrace.tla (same operators as RawDb.tla) line by line and evaluates RefEq / Partition "
+                                 "on every state; a line the spec does not explain is a violation only if the recorded state itself breaks the property"}
+    c["rule"] += " || code->spec: recorded random histories validated by TLC against RawDbTrace.tla"
+    res["violations"] += tr["violations"]
+    res["known"] += [k for k in tr["known"] if k not in res["known"]]
+    return res
+
+
 @register("C01")
 def c01(prop, tier, seed):
-    return raw_run(prop, tier, seed, raw_plan(tier),
-                   "non-trivial = length >= 3 containing a relocation, an adjacent-hole growth or a reopen", RAW_ASSUME)
+    with cf.ThreadPoolExecutor(2) as ex:
+        ft = ex.submit(trace_raw, prop, tier, seed)
+        res = raw_run(prop, tier, seed, raw_plan(tier),
+                      "non-trivial = length >= 3 containing a relocation, an adjacent-hole growth or a reopen", RAW_ASSUME)
+        return add_trace(res, ft.result(), prop)
 
 
 @register("C02")
 def c02(prop, tier, seed):
-    return raw_run(prop, tier, seed, raw_plan(tier),
-                   "non-trivial = length >= 3 containing a relocation, an adjacent-hole growth or a reopen", RAW_ASSUME)
+    with cf.ThreadPoolExecutor(2) as ex:
+        ft = ex.submit(trace_raw, prop, tier, seed)
+        res = raw_run(prop, tier, seed, raw_plan(tier),
+                      "non-trivial = length >= 3 containing a relocation, an adjacent-hole growth or a reopen", RAW_ASSUME)
+        return add_trace(res, ft.result(), prop)
 
 
 # ----------------------------------------------------------------------------------------------
